@@ -107,8 +107,9 @@ def st_row_signal(draw, band, n, k):
 
 
 @st.composite
-def st_options(draw, band, allow_amp=True, center=None, method=None):
+def st_options(draw, band, allow_amp=True, center=None, method=None, sparse=False):
     """one compute_features option set (as JSON)"""
+    center_fixed = center is not None
     method = method or draw(st.sampled_from(['cycles', 'cycles', 'amp'] if allow_amp else ['cycles']))
     center = center or draw(st.sampled_from(['peak', 'trough']))
     kw = {'center_extrema': center, 'burst_method': method}
@@ -123,10 +124,23 @@ def st_options(draw, band, allow_amp=True, center=None, method=None):
                                   'min_n_cycles': draw(st.integers(1, 3))}
         if draw(st.booleans()):
             kw['burst_kwargs'] = {'amp_threshes': draw(st.sampled_from([[0.5, 1], [1, 1.5], [0.8, 1.2]]))}
+        if sparse and draw(st.integers(0, 2)) == 0:
+            # the minimum cycle count given with the burst options (it wins over the thresholds' value, C07)
+            kw.setdefault('burst_kwargs', {})['min_n_cycles'] = draw(st.integers(0, 4))
+            if draw(st.booleans()):
+                del kw['threshold_kwargs']['min_n_cycles']
     if draw(st.integers(0, 3)) == 0:
         kw['find_extrema_kwargs'] = {'filter_kwargs': {'n_cycles': draw(st.sampled_from([2, 3, 4]))}, 'boundary': draw(st.sampled_from([0, 2]))}
         if draw(st.booleans()):
             kw['find_extrema_kwargs']['pad'] = False
+    if sparse and draw(st.integers(0, 3)) == 0:
+        # partially specified option sets: every key is optional and falls back to the documented default
+        for key in draw(st.lists(st.sampled_from(['center_extrema', 'burst_method', 'threshold_kwargs', 'find_extrema_kwargs']), min_size=1, max_size=4, unique=True)):
+            if key == 'center_extrema' and center_fixed:
+                continue
+            if key == 'burst_method' and kw.get('burst_method') == 'amp':
+                continue
+            kw.pop(key, None)
     return kw
 
 
@@ -136,3 +150,23 @@ def materialise(kw):
     if kw and 'burst_kwargs' in kw and 'amp_threshes' in kw['burst_kwargs']:
         kw['burst_kwargs']['amp_threshes'] = tuple(kw['burst_kwargs']['amp_threshes'])
     return kw
+
+
+class start_method:
+    """with start_method('spawn'): ... - the caller's multiprocessing start method for the duration of the block (spawn is the
+    default on macOS / Windows, forkserver from Python 3.14); 'fork' (this platform's default) is restored afterwards"""
+
+    def __init__(self, method):
+        self.method = method
+
+    def __enter__(self):
+        import multiprocessing
+        if self.method and self.method != 'fork':
+            multiprocessing.set_start_method(self.method, force=True)
+        return self
+
+    def __exit__(self, *exc):
+        import multiprocessing
+        if self.method and self.method != 'fork':
+            multiprocessing.set_start_method('fork', force=True)
+        return False
